@@ -444,6 +444,25 @@ func (fc *FnCtx) instr(ins ssa.Instruction) {
 		fc.nextInstr(x)
 	case *ssa.Call:
 		fc.call(x, &x.Call, x)
+		// after(F, e): remember the state in which the first call of each callee returned (root function only)
+		if fc.parent == nil {
+			nm := ""
+			if x.Call.IsInvoke() {
+				nm = x.Call.Method.Name()
+			} else if cal := x.Call.StaticCallee(); cal != nil {
+				nm = cal.Name()
+			}
+			if nm != "" {
+				if fc.afterCall == nil {
+					fc.afterCall = map[string]*State{}
+					fc.afterCallBlock = map[string]*ssa.BasicBlock{}
+				}
+				if _, ok := fc.afterCall[nm]; !ok {
+					fc.afterCall[nm] = fc.cur.clone()
+					fc.afterCallBlock[nm] = x.Block()
+				}
+			}
+		}
 	case *ssa.Send:
 		fc.sendInstr(x)
 	case *ssa.Select:
